@@ -199,7 +199,7 @@ def step (s : St) (ws : List String) : St × List String :=
       match nodeFields s.cfg al fs with
       | none => ({ s with kind := .none, proto := none, node := none, ranOk := false }, ["def err"])
       | some fs' => ({ s with kind := .dc, proto := some (dcNode fs'), node := none, ranOk := false },
-          [s!"def ok ins={showPanel (dcNode fs').ins}"])
+          [s!"def ok ins={showPanel (dcPreview fs')}"])
     | _, _ => (s, ["bad-op"])
   | ["show"] =>
     match protoOf s with
